@@ -77,7 +77,7 @@ PROPS["C10"] = {"engines": [{"engine": "waldmg", "shim": True}],
                          "with Cas::open under catch_unwind. states = distinct damaged inputs, transitions = opens."),
                 "explanation": "A damaged log is rejected with an error or yields exactly the index (key -> hash,size) after the longest undamaged prefix, never a panic, for every truncation offset and every single-byte change of checksum/payload."}
 
-PROPS["C08"] = {"engines": [{"engine": "plant", "shim": False}, {"engine": "crash", "shim": True}],
+PROPS["C08"] = {"engines": [{"engine": "plant", "shim": True}, {"engine": "crash", "shim": True}],
                 "rule": ("PLANT: every subset (size <= 2 quick / 3 thorough) of an 12-item garbage/corruption menu is planted into every closed store of every history up to the stated depth; "
                          "open_with_recover (verify on and off) must report exactly the independently computed orphan / invalid / missing / corrupted / staging sets; delete_orphans, "
                          "delete_orphan and quarantine_orphans must remove exactly the garbage and never a referenced blob. CRASH: the same comparison on every crash image. " + CRASH_RULE),
